@@ -647,7 +647,7 @@ fn clip_color(r: &mut f32x8, g: &mut f32x8, b: &mut f32x8, a: f32x8) {
     let l  = lum(*r, *g, *b);
 
     let clip = |mut c| {
-        c = mx.cmp_ge(f32x8::default()).blend(c, l + (c - l) * l / (l - mn));
+        c = mn.cmp_ge(f32x8::default()).blend(c, l + (c - l) * l / (l - mn));
         c = mx.cmp_gt(a).blend(l + (c - l) * (a - l) / (mx - l), c);
         c = c.max(f32x8::default()); // Sometimes without this we may dip just a little negative.
         c
